@@ -175,3 +175,1006 @@ Proof.
     replace (Z.to_nat (n - (i + 1) - 1)) with (length data - S (Z.to_nat (i + 1)))%nat by lia.
     ring.
 Qed.
+
+(* ======================================================================== *)
+(* 3. SortedList.add and the reference sort                                  *)
+(* ======================================================================== *)
+
+Lemma sl_add_perm md e l : Permutation (sl_add md e l) (e :: l).
+Proof.
+  induction l as [|x l IH]; simpl; [apply Permutation_refl|].
+  destruct (Qleb _ _); [|apply Permutation_refl].
+  eapply Permutation_trans; [apply perm_skip; exact IH|apply perm_swap].
+Qed.
+
+Lemma sl_add_length md e l : length (sl_add md e l) = S (length l).
+Proof. apply (Permutation_length (sl_add_perm md e l)). Qed.
+
+Lemma sl_add_best_first md e l : best_first md l -> best_first md (sl_add md e l).
+Proof.
+  unfold best_first. induction 1 as [|x l Hs IH Hf]; simpl.
+  - constructor; constructor.
+  - destruct (Qleb (sort_key md (e_metric x)) (sort_key md (e_metric e))) eqn:E.
+    + apply Qleb_le in E. constructor; [exact IH|].
+      rewrite Forall_forall in *. intros y Hy.
+      apply (Permutation_in _ (sl_add_perm md e l)) in Hy. destruct Hy as [<-|Hy]; [exact E|apply Hf; exact Hy].
+    + assert (E' : sort_key md (e_metric e) < sort_key md (e_metric x)).
+      { apply Qnot_le_lt. intro H. apply Qleb_le in H. congruence. }
+      constructor; [constructor; assumption|].
+      constructor; [apply Qlt_le_weak; exact E'|].
+      rewrite Forall_forall in *. intros y Hy. specialize (Hf y Hy). lra.
+Qed.
+
+Lemma insert_asc_perm x l : Permutation (insert_asc x l) (x :: l).
+Proof.
+  induction l as [|y l IH]; simpl; [apply Permutation_refl|].
+  destruct (Qleb x y); [apply Permutation_refl|].
+  eapply Permutation_trans; [apply perm_skip; exact IH|apply perm_swap].
+Qed.
+
+Lemma sort_asc_perm l : Permutation (sort_asc l) l.
+Proof.
+  induction l as [|x l IH]; simpl; [constructor|].
+  eapply Permutation_trans; [apply insert_asc_perm|apply perm_skip; exact IH].
+Qed.
+
+Lemma insert_asc_sorted x l : StronglySorted Qle l -> StronglySorted Qle (insert_asc x l).
+Proof.
+  induction 1 as [|y l Hs IH Hf]; simpl.
+  - constructor; constructor.
+  - destruct (Qleb x y) eqn:E.
+    + apply Qleb_le in E. constructor; [constructor; assumption|].
+      constructor; [exact E|]. rewrite Forall_forall in *. intros z Hz. specialize (Hf z Hz). lra.
+    + assert (E' : y < x) by (apply Qnot_le_lt; intro H; apply Qleb_le in H; congruence).
+      constructor; [exact IH|]. rewrite Forall_forall in *. intros z Hz.
+      apply (Permutation_in _ (insert_asc_perm x l)) in Hz. destruct Hz as [<-|Hz]; [lra|apply Hf; exact Hz].
+Qed.
+
+Lemma sort_asc_sorted l : StronglySorted Qle (sort_asc l).
+Proof. induction l as [|x l IH]; simpl; [constructor|apply insert_asc_sorted; exact IH]. Qed.
+
+Lemma metrics_sl_add_perm md t m data :
+  Permutation (metrics (sl_add md {| e_trial := t; e_metric := m |} data)) (m :: metrics data).
+Proof.
+  unfold metrics. change (m :: map e_metric data) with (map e_metric ({| e_trial := t; e_metric := m |} :: data)).
+  apply Permutation_map. apply sl_add_perm.
+Qed.
+
+Lemma no_worse_compat md m c c' : c == c' -> no_worse md m c = no_worse md m c'.
+Proof.
+  intro H. destruct md; simpl; unfold Qleb.
+  - destruct (Qle_bool m c) eqn:E1, (Qle_bool m c') eqn:E2; try reflexivity.
+    + apply Qle_bool_iff in E1. rewrite H in E1. apply Qle_bool_iff in E1. congruence.
+    + apply Qle_bool_iff in E2. rewrite <- H in E2. apply Qle_bool_iff in E2. congruence.
+  - destruct (Qle_bool c m) eqn:E1, (Qle_bool c' m) eqn:E2; try reflexivity.
+    + apply Qle_bool_iff in E1. rewrite H in E1. apply Qle_bool_iff in E1. congruence.
+    + apply Qle_bool_iff in E2. rewrite <- H in E2. apply Qle_bool_iff in E2. congruence.
+Qed.
+
+(* ======================================================================== *)
+(* 4. _task_continues = the documented rule                                  *)
+(* ======================================================================== *)
+
+Definition trial_ids (rg : rung) : list Z := map e_trial (r_data rg).
+
+Definition rung_ok (md : mode) (rg : rung) : Prop :=
+  0 < r_quant rg < 1 /\ best_first md (r_data rg) /\ NoDup (trial_ids rg).
+
+(* the decision for a report depends only on the MULTISET of metrics at the rung:
+   [ms] is any arrangement of the metrics incl. own *)
+Lemma base_continues_rule md rg m ms :
+  0 < r_quant rg < 1 -> best_first md (r_data rg) -> Permutation ms (metrics (r_data rg)) ->
+  base_continues md rg m = Some (rule_b md (r_quant rg) ms m).
+Proof.
+  intros Hq Hbf Hp. unfold base_continues, rule_b.
+  assert (Hl : length ms = length (r_data rg)).
+  { rewrite (Permutation_length Hp). unfold metrics. apply map_length. }
+  destruct (le_lt_dec 2 (length (r_data rg))) as [H2|H2].
+  - destruct (rung_quantile_is_numpy_linear md (r_quant rg) (r_data rg) (sort_asc ms) Hbf H2 Hq) as [v [Hv Hveq]].
+    + apply StronglySorted_Sorted. apply sort_asc_sorted.
+    + eapply Permutation_trans; [apply sort_asc_perm|exact Hp].
+    + rewrite Hv. rewrite Hl. destruct (length (r_data rg) <? 2)%nat eqn:E; [lia|]. simpl.
+      f_equal. apply no_worse_compat. exact Hveq.
+  - unfold rung_quantile. destruct (Z.of_nat (length (r_data rg)) <? 2)%Z eqn:E; [|lia].
+    rewrite Hl. destruct (length (r_data rg) <? 2)%nat eqn:E'; [reflexivity|lia].
+Qed.
+
+Lemma rung_add_ok md rg t m : rung_ok md rg -> rung_contains t rg = false -> rung_ok md (rung_add md rg t m).
+Proof.
+  intros [Hq [Hbf Hnd]] Hc. unfold rung_ok, rung_add, trial_ids in *. simpl. split; [exact Hq|]. split.
+  - apply sl_add_best_first. exact Hbf.
+  - eapply Permutation_NoDup.
+    + apply Permutation_sym. apply (Permutation_map e_trial (sl_add_perm md _ (r_data rg))).
+    + simpl. constructor; [|exact Hnd]. intro Hin. apply in_map_iff in Hin as [e [He Hin]].
+      unfold rung_contains in Hc. rewrite <- not_true_iff_false in Hc. apply Hc.
+      apply existsb_exists. exists e. split; [exact Hin|]. apply Z.eqb_eq. exact He.
+Qed.
+
+Lemma rung_contains_In t rg : rung_contains t rg = true <-> In t (trial_ids rg).
+Proof.
+  unfold rung_contains, trial_ids. rewrite existsb_exists, in_map_iff. split.
+  - intros [e [Hin He]]. exists e. split; [apply Z.eqb_eq; exact He|exact Hin].
+  - intros [e [He Hin]]. exists e. split; [exact Hin|apply Z.eqb_eq; exact He].
+Qed.
+
+(* the report entering rung [rg]: StoppingRungSystem._task_continues after Rung.add *)
+Lemma stopping_rule md rg t m ths :
+  rung_ok md rg ->
+  tc_stopping md (rung_add md rg t m) t m ths =
+    (ths, Some (rule_b md (r_quant rg) (m :: metrics (r_data rg)) m)).
+Proof.
+  intros [Hq [Hbf _]]. unfold tc_stopping. f_equal.
+  apply (base_continues_rule md (rung_add md rg t m) m (m :: metrics (r_data rg))).
+  - exact Hq.
+  - simpl. apply sl_add_best_first. exact Hbf.
+  - simpl. apply Permutation_sym. apply metrics_sl_add_perm.
+Qed.
+
+(* RUSH: threshold test *)
+Definition meets_threshold (md : mode) (th : option Q) (m : Q) : bool :=
+  match th with None => true | Some a => no_worse md m a end.
+
+Lemma rush_meets md th m : Qeqb (return_better md th m) m = meets_threshold md th m.
+Proof.
+  destruct th as [a|]; simpl.
+  - destruct md; simpl; unfold Qeqb, Qleb.
+    + destruct (Qltb m a) eqn:E.
+      * apply Qltb_lt in E. assert (H1 : Qeq_bool m m = true) by (apply Qeq_bool_iff; reflexivity).
+        assert (H2 : Qle_bool m a = true) by (apply Qle_bool_iff; lra). congruence.
+      * assert (E' : a <= m). { apply Qnot_lt_le. intro H. apply Qltb_lt in H. congruence. }
+        destruct (Qeq_bool a m) eqn:E1, (Qle_bool m a) eqn:E2; try reflexivity.
+        -- apply Qeq_bool_iff in E1. assert (H : m <= a) by lra. apply Qle_bool_iff in H. congruence.
+        -- apply Qle_bool_iff in E2. assert (H : a == m) by lra. apply Qeq_bool_iff in H. congruence.
+    + destruct (Qltb a m) eqn:E.
+      * apply Qltb_lt in E. assert (H1 : Qeq_bool m m = true) by (apply Qeq_bool_iff; reflexivity).
+        assert (H2 : Qle_bool a m = true) by (apply Qle_bool_iff; lra). congruence.
+      * assert (E' : m <= a). { apply Qnot_lt_le. intro H. apply Qltb_lt in H. congruence. }
+        destruct (Qeq_bool a m) eqn:E1, (Qle_bool a m) eqn:E2; try reflexivity.
+        -- apply Qeq_bool_iff in E1. assert (H : a <= m) by lra. apply Qle_bool_iff in H. congruence.
+        -- apply Qle_bool_iff in E2. assert (H : a == m) by lra. apply Qeq_bool_iff in H. congruence.
+  - unfold Qeqb. apply Qeq_bool_iff. reflexivity.
+Qed.
+
+Lemma rush_rule md n rg t m ths :
+  rung_ok md rg ->
+  let base := rule_b md (r_quant rg) (m :: metrics (r_data rg)) m in
+  let th := th_get ths (r_level rg) in
+  tc_rush md n (rung_add md rg t m) t m ths =
+    (if base && (t <? n)%Z then th_set ths (r_level rg) (return_better md th m) else ths,
+     Some (base && ((t <? n)%Z || meets_threshold md th m))).
+Proof.
+  intros Hok base th. unfold tc_rush.
+  pose proof (stopping_rule md rg t m ths Hok) as H. unfold tc_stopping in H. injection H as H.
+  rewrite H. fold base. unfold rush_decide. simpl r_level. fold th.
+  destruct base; simpl; [|reflexivity].
+  destruct (t <? n)%Z; simpl; [reflexivity|]. rewrite rush_meets. reflexivity.
+Qed.
+
+(* ======================================================================== *)
+(* 5. The scan of StoppingRungSystem.on_task_report                          *)
+(* ======================================================================== *)
+
+(* rungs of a system are kept highest level first, levels pairwise distinct *)
+Definition levels_desc (rs : list rung) : Prop :=
+  StronglySorted (fun a b => (r_level b < r_level a)%Z) rs.
+
+(* the rung a report (t, r) enters: level r and the trial not yet recorded there *)
+Definition target (t r : Z) (rg : rung) : bool := (r_level rg =? r)%Z && negb (rung_contains t rg).
+
+Definition scan_unchanged (ths : thresholds) (rs : list rung) : report :=
+  {| rp_rungs := rs; rp_thr := ths; rp_continues := Some true; rp_milestone := false |}.
+
+Lemma scan_no_target md tcf ths t r m rs :
+  (forall rg, In rg rs -> target t r rg = false) ->
+  scan md tcf ths t r m rs = scan_unchanged ths rs.
+Proof.
+  unfold scan_unchanged. induction rs as [|rg rest IH]; intro H; simpl; [reflexivity|].
+  destruct ((r <? r_level rg)%Z || rung_contains t rg) eqn:E1.
+  - rewrite IH; [reflexivity|]. intros rg' Hin. apply H. right. exact Hin.
+  - destruct (r_level rg <? r)%Z eqn:E2; [reflexivity|].
+    exfalso. specialize (H rg (or_introl eq_refl)). unfold target in H.
+    apply orb_false_iff in E1 as [E1a E1b]. rewrite E1b in H. simpl in H. lia.
+Qed.
+
+Lemma scan_target md tcf ths t r m pre rg post :
+  levels_desc (pre ++ rg :: post) -> target t r rg = true ->
+  scan md tcf ths t r m (pre ++ rg :: post) =
+    {| rp_rungs := pre ++ rung_add md rg t m :: post;
+       rp_thr := fst (tcf (rung_add md rg t m) t m ths);
+       rp_continues := snd (tcf (rung_add md rg t m) t m ths);
+       rp_milestone := true |}.
+Proof.
+  unfold target. intros Hd Ht. apply andb_true_iff in Ht as [Hl Hc]. apply negb_true_iff in Hc.
+  induction pre as [|a pre IH]; simpl.
+  - rewrite Hc. destruct (r <? r_level rg)%Z eqn:E1; [lia|]. simpl.
+    destruct (r_level rg <? r)%Z eqn:E2; [lia|].
+    destruct (tcf (rung_add md rg t m) t m ths); reflexivity.
+  - simpl in Hd. inversion Hd as [|? ? Hd' Hf]; subst.
+    rewrite Forall_forall in Hf. specialize (Hf rg (in_elt rg pre post)).
+    destruct (r <? r_level a)%Z eqn:E1; [|lia]. simpl. rewrite (IH Hd'). reflexivity.
+Qed.
+
+Lemma firstn_incl {A} k (l : list A) x : In x (firstn k l) -> In x l.
+Proof.
+  revert k. induction l as [|y l IH]; intros [|k] H; simpl in *; try contradiction.
+  destruct H as [->|H]; [left; reflexivity|right; eapply IH; exact H].
+Qed.
+
+Lemma levels_desc_firstn k rs : levels_desc rs -> levels_desc (firstn k rs).
+Proof.
+  unfold levels_desc. intro H. revert k. induction H as [|a l Hs IH Hf]; intros [|k]; simpl; try constructor.
+  - apply IH.
+  - rewrite Forall_forall in *. intros x Hx. apply Hf. eapply firstn_incl; exact Hx.
+Qed.
+
+(* ======================================================================== *)
+(* 6. Invariant of the scheduler state                                       *)
+(* ======================================================================== *)
+
+Definition sys_ok (md : mode) (sys : rsys) : Prop :=
+  levels_desc (rs_rungs sys) /\ Forall (rung_ok md) (rs_rungs sys).
+
+Definition Inv (cfg : config) (st : state) : Prop :=
+  Forall (sys_ok (c_mode cfg)) (s_sys st) /\
+  (forall t, assoc_get (s_active st) t = Some CONTINUE ->
+     exists b, assoc_get (s_task st) t = Some b /\ (sys_id cfg b < length (s_sys st))%nat).
+
+Lemma assoc_get_set_same {A} (l : list (Z * A)) t v : assoc_get (assoc_set l t v) t = Some v.
+Proof.
+  induction l as [|[k w] l IH]; simpl.
+  - rewrite Z.eqb_refl. reflexivity.
+  - destruct (Z.eqb k t) eqn:E; simpl; rewrite E; [reflexivity|exact IH].
+Qed.
+
+Lemma assoc_get_set_other {A} (l : list (Z * A)) t t' v : t' <> t -> assoc_get (assoc_set l t v) t' = assoc_get l t'.
+Proof.
+  intro Hne. induction l as [|[k w] l IH]; simpl.
+  - destruct (Z.eqb t t') eqn:E; [apply Z.eqb_eq in E; congruence|reflexivity].
+  - destruct (Z.eqb k t) eqn:E; simpl.
+    + apply Z.eqb_eq in E. subst k. destruct (Z.eqb t t') eqn:E2; [apply Z.eqb_eq in E2; congruence|reflexivity].
+    + destruct (Z.eqb k t'); [reflexivity|exact IH].
+Qed.
+
+Lemma assoc_get_del_other {A} (l : list (Z * A)) t t' : t' <> t -> assoc_get (assoc_del l t) t' = assoc_get l t'.
+Proof.
+  intro Hne. induction l as [|[k w] l IH]; simpl; [reflexivity|].
+  destruct (Z.eqb k t) eqn:E; simpl.
+  - apply Z.eqb_eq in E. subst k. destruct (Z.eqb t t') eqn:E2; [apply Z.eqb_eq in E2; congruence|reflexivity].
+  - destruct (Z.eqb k t'); [reflexivity|exact IH].
+Qed.
+
+Lemma list_set_length {A} (l : list A) i x : length (list_set l i x) = length l.
+Proof. revert i. induction l as [|y l IH]; intros [|i]; simpl; auto. Qed.
+
+Lemma list_set_Forall {A} (P : A -> Prop) (l : list A) i x : Forall P l -> P x -> Forall P (list_set l i x).
+Proof.
+  intros Hl Hx. revert i. induction Hl as [|y l Hy Hl IH]; intros [|i]; simpl; constructor; auto.
+Qed.
+
+Lemma list_set_same {A} (l : list A) i x : nth_error l i = Some x -> list_set l i x = l.
+Proof.
+  revert i. induction l as [|y l IH]; intros [|i] H; simpl in *; try discriminate; try reflexivity.
+  - injection H as ->. reflexivity.
+  - f_equal. apply IH. exact H.
+Qed.
+
+Lemma list_set_nth_same {A} (l : list A) i x : (i < length l)%nat -> nth_error (list_set l i x) i = Some x.
+Proof. revert i. induction l as [|y l IH]; intros [|i] H; simpl in *; try lia; [reflexivity|apply IH; lia]. Qed.
+
+Lemma list_set_nth_other {A} (l : list A) i j x : i <> j -> nth_error (list_set l i x) j = nth_error l j.
+Proof.
+  revert i j. induction l as [|y l IH]; intros [|i] [|j] H; simpl; try reflexivity; try congruence.
+  apply IH. congruence.
+Qed.
+
+Lemma cleanup_inv cfg st t d : d <> CONTINUE -> Inv cfg st -> Inv cfg (cleanup st t d).
+Proof.
+  intros Hd [H1 H2]. split; [exact H1|]. unfold cleanup. simpl. intros t' Ht'.
+  assert (Hne : t' <> t /\ assoc_get (s_active st) t' = Some CONTINUE).
+  { destruct (Z.eq_dec t' t) as [->|Hne].
+    - exfalso. destruct (assoc_get (s_active st) t) eqn:E.
+      + rewrite assoc_get_set_same in Ht'. congruence.
+      + congruence.
+    - split; [exact Hne|]. destruct (assoc_get (s_active st) t); [rewrite assoc_get_set_other in Ht' by exact Hne|]; exact Ht'. }
+  destruct Hne as [Hne Hact]. destruct (H2 t' Hact) as [b [Hb Hlt]].
+  exists b. split; [rewrite assoc_get_del_other by exact Hne; exact Hb|exact Hlt].
+Qed.
+
+Lemma milestone_split skip rs : milestone_rungs skip rs ++ skipped_rungs skip rs = rs.
+Proof. apply firstn_skipn. Qed.
+
+Lemma scan_preserves md tcf ths t r m rs :
+  levels_desc rs -> Forall (rung_ok md) rs ->
+  let res := scan md tcf ths t r m rs in
+  map r_level (rp_rungs res) = map r_level rs /\ map r_quant (rp_rungs res) = map r_quant rs /\
+  Forall (rung_ok md) (rp_rungs res).
+Proof.
+  intros Hd Hok.
+  destruct (existsb (target t r) rs) eqn:E.
+  - apply existsb_exists in E as [rg [Hin Ht]]. apply in_split in Hin as [pre [post ->]].
+    rewrite (scan_target md tcf ths t r m pre rg post Hd Ht). simpl.
+    rewrite !map_app. simpl. repeat split; try reflexivity.
+    apply Forall_app in Hok as [Hpre Hpost]. inversion Hpost as [|? ? Hrg Hpost']; subst.
+    apply Forall_app. split; [exact Hpre|]. constructor; [|exact Hpost'].
+    apply rung_add_ok; [exact Hrg|]. unfold target in Ht. apply andb_true_iff in Ht as [_ Ht].
+    apply negb_true_iff in Ht. exact Ht.
+  - rewrite scan_no_target.
+    + simpl. repeat split; auto.
+    + intros rg Hin. destruct (target t r rg) eqn:Et; [|reflexivity].
+      assert (existsb (target t r) rs = true) by (apply existsb_exists; exists rg; split; assumption). congruence.
+Qed.
+
+Lemma levels_desc_map rs rs' : map r_level rs' = map r_level rs -> levels_desc rs -> levels_desc rs'.
+Proof.
+  unfold levels_desc. intros Hm Hd. revert rs' Hm.
+  induction Hd as [|a l Hs IH Hf]; intros [|a' l'] Hm; simpl in Hm; try discriminate; constructor.
+  - apply IH. injection Hm as _ Hm. exact Hm.
+  - injection Hm as Ha Hm. rewrite Forall_forall in *. intros x Hx.
+    apply (in_map r_level) in Hx. rewrite Hm in Hx. apply in_map_iff in Hx as [y [Hy Hin]].
+    specialize (Hf y Hin). lia.
+Qed.
+
+Lemma rs_report_ok md tcf max_t sys skip t r m :
+  sys_ok md sys -> sys_ok md (fst (fst (rs_on_task_report md tcf max_t sys skip t r m))).
+Proof.
+  intros [Hd Hok]. unfold rs_on_task_report. destruct (r =? max_t)%Z; simpl; [split; assumption|].
+  assert (Hd1 : levels_desc (milestone_rungs skip (rs_rungs sys))) by (apply levels_desc_firstn; exact Hd).
+  assert (Hok1 : Forall (rung_ok md) (milestone_rungs skip (rs_rungs sys))).
+  { rewrite <- (milestone_split skip (rs_rungs sys)) in Hok. apply Forall_app in Hok. tauto. }
+  assert (Hok2 : Forall (rung_ok md) (skipped_rungs skip (rs_rungs sys))).
+  { rewrite <- (milestone_split skip (rs_rungs sys)) in Hok. apply Forall_app in Hok. tauto. }
+  destruct (scan_preserves md tcf (rs_thr sys) t r m _ Hd1 Hok1) as [Hl [_ Hf]].
+  split.
+  - simpl. apply (levels_desc_map (rs_rungs sys)); [|exact Hd]. simpl in Hl.
+    rewrite map_app, Hl, <- map_app, milestone_split. reflexivity.
+  - simpl. apply Forall_app. split; assumption.
+Qed.
+
+Lemma on_trial_result_inv tcf cfg st t r m : Inv cfg st -> Inv cfg (fst (on_trial_result_gen tcf cfg st t r m)).
+Proof.
+  intro HI. unfold on_trial_result_gen.
+  destruct (r <? 1)%Z; [exact HI|].
+  destruct (assoc_get (s_active st) t) as [d|] eqn:Ea; [|exact HI].
+  destruct d; try exact HI.
+  destruct (assoc_get (s_task st) t) as [b|] eqn:Eb; [|exact HI].
+  destruct (nth_error (s_sys st) (sys_id cfg b)) as [sys|] eqn:Es; [|exact HI].
+  destruct (r <? c_max_t cfg)%Z.
+  - set (res := rs_on_task_report _ _ _ _ _ _ _ _).
+    assert (HI1 : Inv cfg {| s_sys := list_set (s_sys st) (sys_id cfg b) (fst (fst res)); s_task := s_task st; s_active := s_active st |}).
+    { destruct HI as [H1 H2]. split; simpl.
+      - apply list_set_Forall; [exact H1|]. apply rs_report_ok.
+        rewrite Forall_forall in H1. apply H1. eapply nth_error_In. exact Es.
+      - rewrite list_set_length. exact H2. }
+    destruct (snd (fst res)) as [[|]|]; simpl; try exact HI1.
+    apply cleanup_inv; [discriminate|exact HI1].
+  - simpl. apply cleanup_inv; [discriminate|exact HI].
+Qed.
+
+Lemma step_inv tcf cfg st ev : Inv cfg st -> Inv cfg (fst (step_gen tcf cfg st ev)).
+Proof.
+  intro HI. destruct ev as [t b|t r m|t|t|t]; simpl.
+  - destruct (nth_error (s_sys st) (sys_id cfg b)) eqn:Es; [|exact HI].
+    destruct (assoc_get (s_active st) t) eqn:Ea; [exact HI|]. simpl.
+    destruct HI as [H1 H2]. split; simpl; [exact H1|]. intros t' Ht'.
+    destruct (Z.eq_dec t' t) as [->|Hne].
+    + exists b. split; [apply assoc_get_set_same|]. apply nth_error_Some. congruence.
+    + rewrite assoc_get_set_other in Ht' by exact Hne. rewrite assoc_get_set_other by exact Hne. apply H2. exact Ht'.
+  - apply on_trial_result_inv. exact HI.
+  - apply cleanup_inv; [discriminate|exact HI].
+  - destruct (assoc_get (s_active st) t); simpl; [apply cleanup_inv; [discriminate|exact HI]|exact HI].
+  - apply cleanup_inv; [discriminate|exact HI].
+Qed.
+
+Lemma run_inv cfg evs : forall st, Inv cfg st -> Inv cfg (run cfg st evs).
+Proof.
+  unfold run. induction evs as [|ev evs IH]; intros st HI; simpl; [exact HI|].
+  apply IH. apply (step_inv (cfg_tcf cfg)). exact HI.
+Qed.
+
+(* ======================================================================== *)
+(* 7. Decisions of on_trial_result                                           *)
+(* ======================================================================== *)
+
+Definition running (st : state) (t : Z) : Prop := assoc_get (s_active st) t = Some CONTINUE.
+
+(* the rungs at which trial in bracket b takes decisions (bracket offset respected) *)
+Definition own_rungs (cfg : config) (st : state) (b : nat) : list rung :=
+  match nth_error (s_sys st) (sys_id cfg b) with
+  | Some sys => milestone_rungs (skip_of cfg b) (rs_rungs sys)
+  | None => []
+  end.
+
+Lemma inv_running cfg st t : Inv cfg st -> running st t ->
+  exists b sys, assoc_get (s_task st) t = Some b /\ nth_error (s_sys st) (sys_id cfg b) = Some sys /\
+                sys_ok (c_mode cfg) sys.
+Proof.
+  intros [H1 H2] Hr. destruct (H2 t Hr) as [b [Hb Hlt]].
+  destruct (nth_error (s_sys st) (sys_id cfg b)) as [sys|] eqn:Es.
+  - exists b, sys. repeat split; try assumption; rewrite Forall_forall in H1; apply H1; eapply nth_error_In; exact Es.
+  - apply nth_error_None in Es. lia.
+Qed.
+
+Lemma decision_at_max tcf cfg st t r m :
+  Inv cfg st -> running st t -> (1 <= r)%Z -> (c_max_t cfg <= r)%Z ->
+  on_trial_result_gen tcf cfg st t r m = (cleanup st t STOP, Dec STOP).
+Proof.
+  intros HI Hr H1 Hm. destruct (inv_running cfg st t HI Hr) as [b [sys [Hb [Hs _]]]].
+  unfold on_trial_result_gen. destruct (r <? 1)%Z eqn:E1; [lia|].
+  unfold running in Hr. rewrite Hr, Hb, Hs. destruct (r <? c_max_t cfg)%Z eqn:E2; [lia|]. reflexivity.
+Qed.
+
+Lemma decision_off_rung tcf cfg st t r m b :
+  Inv cfg st -> running st t -> (1 <= r < c_max_t cfg)%Z -> assoc_get (s_task st) t = Some b ->
+  (forall rg, In rg (own_rungs cfg st b) -> target t r rg = false) ->
+  on_trial_result_gen tcf cfg st t r m = (st, Dec CONTINUE).
+Proof.
+  intros HI Hr Hrange Hb Hno. destruct (inv_running cfg st t HI Hr) as [b' [sys [Hb' [Hs _]]]].
+  assert (b' = b) by congruence. subst b'.
+  unfold on_trial_result_gen. destruct (r <? 1)%Z eqn:E1; [lia|].
+  unfold running in Hr. rewrite Hr, Hb, Hs. destruct (r <? c_max_t cfg)%Z eqn:E2; [|lia].
+  unfold rs_on_task_report. destruct (r =? c_max_t cfg)%Z eqn:E3; [lia|].
+  unfold own_rungs in Hno. rewrite Hs in Hno. rewrite (scan_no_target _ _ _ _ _ _ _ Hno). simpl.
+  rewrite milestone_split.
+  replace {| rs_rungs := rs_rungs sys; rs_thr := rs_thr sys |} with sys by (destruct sys; reflexivity).
+  rewrite (list_set_same _ _ _ Hs). destruct st; reflexivity.
+Qed.
+
+Lemma decision_at_rung tcf cfg st t r m b sys pre rg post :
+  Inv cfg st -> running st t -> (1 <= r < c_max_t cfg)%Z -> assoc_get (s_task st) t = Some b ->
+  nth_error (s_sys st) (sys_id cfg b) = Some sys ->
+  milestone_rungs (skip_of cfg b) (rs_rungs sys) = pre ++ rg :: post -> target t r rg = true ->
+  let rg' := rung_add (c_mode cfg) rg t m in
+  let res := tcf rg' t m (rs_thr sys) in
+  let st1 := {| s_sys := list_set (s_sys st) (sys_id cfg b)
+                           {| rs_rungs := (pre ++ rg' :: post) ++ skipped_rungs (skip_of cfg b) (rs_rungs sys);
+                              rs_thr := fst res |};
+                s_task := s_task st; s_active := s_active st |} in
+  on_trial_result_gen tcf cfg st t r m =
+    match snd res with
+    | None => (st1, Err EAssertQuantile)
+    | Some true => (st1, Dec CONTINUE)
+    | Some false => (cleanup st1 t STOP, Dec STOP)
+    end.
+Proof.
+  intros HI Hr Hrange Hb Hs Hms Ht. simpl.
+  destruct (inv_running cfg st t HI Hr) as [b' [sys' [Hb' [Hs' [Hd _]]]]].
+  assert (b' = b) by congruence. subst b'. assert (sys' = sys) by congruence. subst sys'.
+  unfold on_trial_result_gen. destruct (r <? 1)%Z eqn:E1; [lia|].
+  unfold running in Hr. rewrite Hr, Hb, Hs. destruct (r <? c_max_t cfg)%Z eqn:E2; [|lia].
+  unfold rs_on_task_report. destruct (r =? c_max_t cfg)%Z eqn:E3; [lia|].
+  rewrite Hms. rewrite scan_target; [|rewrite <- Hms; apply levels_desc_firstn; exact Hd|exact Ht].
+  simpl. reflexivity.
+Qed.
+
+(* --- the initial state ---------------------------------------------------- *)
+
+Definition wf_levels (levels : list Z) (max_t : Z) : Prop :=
+  StronglySorted Z.lt levels /\ Forall (fun l => (0 < l < max_t)%Z) levels.
+
+Lemma quant_range x y : (0 < x < y)%Z -> 0 < inject_Z x / inject_Z y < 1.
+Proof.
+  intro H.
+  assert (H0 : 0 < inject_Z x) by (change 0 with (inject_Z 0); rewrite <- Zlt_Qlt; lia).
+  assert (H1 : inject_Z x < inject_Z y) by (rewrite <- Zlt_Qlt; lia).
+  split; [apply Qlt_shift_div_l; lra|apply Qlt_shift_div_r; lra].
+Qed.
+
+Lemma ssorted_snoc_gen {A} (R : A -> A -> Prop) l x :
+  StronglySorted R l -> Forall (fun y => R y x) l -> StronglySorted R (l ++ [x]).
+Proof.
+  induction 1 as [|a l Hs IH Hf]; intro F; simpl.
+  - constructor; constructor.
+  - inversion F as [|? ? Fa F']; subst. constructor; [apply IH; exact F'|].
+    apply Forall_app. split; [exact Hf|constructor; [exact Fa|constructor]].
+Qed.
+
+Lemma ssorted_rev_gen {A} (R : A -> A -> Prop) l :
+  StronglySorted R l -> StronglySorted (fun a b => R b a) (rev l).
+Proof.
+  induction 1 as [|a l Hs IH Hf]; simpl; [constructor|].
+  apply ssorted_snoc_gen; [exact IH|]. rewrite Forall_forall in *. intros y Hy. apply Hf. apply in_rev. exact Hy.
+Qed.
+
+Definition mk_rung (lq : Z * Q) : rung := {| r_level := fst lq; r_quant := snd lq; r_data := [] |}.
+
+Lemma rungs_asc_ok md max_t levels : wf_levels levels max_t ->
+  let rs := map mk_rung (combine levels (mk_quantiles levels max_t)) in
+  map r_level rs = levels /\
+  StronglySorted (fun a b => (r_level a < r_level b)%Z) rs /\ Forall (rung_ok md) rs.
+Proof.
+  intros [Hs Hf]. induction Hs as [|x rest Hs IH Hlt]; simpl.
+  - repeat split; constructor.
+  - inversion Hf as [|? ? Hx Hf']; subst. destruct (IH Hf') as [IH1 [IH2 IH3]]. repeat split.
+    + simpl. f_equal. exact IH1.
+    + constructor; [exact IH2|]. rewrite Forall_forall in *. intros rg Hrg.
+      apply (in_map r_level) in Hrg. rewrite IH1 in Hrg. simpl. apply Hlt. exact Hrg.
+    + constructor; [|exact IH3]. unfold rung_ok, mk_rung. simpl. split; [|split; constructor].
+      apply quant_range. destruct rest as [|y rest']; [exact Hx|].
+      rewrite Forall_forall in Hlt. specialize (Hlt y (or_introl eq_refl)). lia.
+Qed.
+
+Lemma wf_levels_tl levels max_t : wf_levels levels max_t -> wf_levels (tl levels) max_t.
+Proof.
+  intros [Hs Hf]. destruct levels as [|x rest]; simpl; [split; assumption|].
+  inversion Hs; subst. inversion Hf; subst. split; assumption.
+Qed.
+
+Lemma mk_quantiles_tl levels max_t : mk_quantiles (tl levels) max_t = tl (mk_quantiles levels max_t).
+Proof. destruct levels; reflexivity. Qed.
+
+Lemma mk_systems_ok md max_t num : forall levels, wf_levels levels max_t ->
+  Forall (sys_ok md) (mk_systems levels (mk_quantiles levels max_t) num).
+Proof.
+  induction num as [|num IH]; intros levels Hwf; simpl; constructor.
+  - destruct (rungs_asc_ok md max_t levels Hwf) as [H1 [H2 H3]]. unfold sys_ok, mk_rungs. simpl.
+    fold mk_rung. change (fun lq : Z * Q => {| r_level := fst lq; r_quant := snd lq; r_data := [] |}) with mk_rung.
+    split.
+    + apply (ssorted_rev_gen (fun a b => (r_level a < r_level b)%Z)). exact H2.
+    + rewrite Forall_forall in *. intros rg Hrg. apply H3. apply in_rev. exact Hrg.
+  - rewrite <- mk_quantiles_tl. apply IH. apply wf_levels_tl. exact Hwf.
+Qed.
+
+Lemma init_inv cfg levels brackets : wf_levels levels (c_max_t cfg) -> Inv cfg (init_state cfg levels brackets).
+Proof.
+  intro Hwf. split; simpl.
+  - apply mk_systems_ok. exact Hwf.
+  - intros t Ht. discriminate.
+Qed.
+
+(* every state reached from the initial one by any event sequence *)
+Definition reached (cfg : config) (levels : list Z) (brackets : nat) (evs : list event) : state :=
+  run cfg (init_state cfg levels brackets) evs.
+
+Lemma reached_inv cfg levels brackets evs :
+  wf_levels levels (c_max_t cfg) -> Inv cfg (reached cfg levels brackets evs).
+Proof. intro H. apply run_inv. apply init_inv. exact H. Qed.
+
+(* --- the theorems of C03 on reachable states ------------------------------- *)
+
+Theorem c03_stop_at_max cfg levels brackets evs t r m :
+  wf_levels levels (c_max_t cfg) ->
+  let st := reached cfg levels brackets evs in
+  running st t -> (1 <= r)%Z -> (c_max_t cfg <= r)%Z ->
+  on_trial_result cfg st t r m = (cleanup st t STOP, Dec STOP).
+Proof. intros Hwf st. apply decision_at_max. apply reached_inv. exact Hwf. Qed.
+
+Theorem c03_continue_off_rung cfg levels brackets evs t r m b :
+  wf_levels levels (c_max_t cfg) ->
+  let st := reached cfg levels brackets evs in
+  running st t -> (1 <= r < c_max_t cfg)%Z -> assoc_get (s_task st) t = Some b ->
+  (forall rg, In rg (own_rungs cfg st b) -> r_level rg = r -> In t (trial_ids rg)) ->
+  on_trial_result cfg st t r m = (st, Dec CONTINUE).
+Proof.
+  intros Hwf st Hr Hrange Hb Hno. apply (decision_off_rung _ cfg st t r m b); try assumption.
+  - apply reached_inv. exact Hwf.
+  - intros rg Hin. unfold target. destruct (r_level rg =? r)%Z eqn:E; [|reflexivity]. simpl.
+    apply negb_false_iff. apply rung_contains_In. apply Hno; [exact Hin|lia].
+Qed.
+
+Lemma own_rung_ok cfg st b sys pre rg post :
+  Inv cfg st -> nth_error (s_sys st) (sys_id cfg b) = Some sys ->
+  milestone_rungs (skip_of cfg b) (rs_rungs sys) = pre ++ rg :: post -> rung_ok (c_mode cfg) rg.
+Proof.
+  intros [H1 _] Hs Hms. rewrite Forall_forall in H1. destruct (H1 sys (nth_error_In _ _ Hs)) as [_ Hok].
+  rewrite Forall_forall in Hok. apply Hok. eapply firstn_incl. unfold milestone_rungs in Hms. rewrite Hms.
+  apply in_elt.
+Qed.
+
+Theorem c03_rule_at_rung cfg levels brackets evs t r m b sys pre rg post :
+  wf_levels levels (c_max_t cfg) -> c_rush cfg = None ->
+  let st := reached cfg levels brackets evs in
+  running st t -> (1 <= r < c_max_t cfg)%Z -> assoc_get (s_task st) t = Some b ->
+  nth_error (s_sys st) (sys_id cfg b) = Some sys ->
+  milestone_rungs (skip_of cfg b) (rs_rungs sys) = pre ++ rg :: post ->
+  r_level rg = r -> ~ In t (trial_ids rg) ->
+  let continues := rule_b (c_mode cfg) (r_quant rg) (m :: metrics (r_data rg)) m in
+  let st1 := {| s_sys := list_set (s_sys st) (sys_id cfg b)
+                  {| rs_rungs := (pre ++ rung_add (c_mode cfg) rg t m :: post)
+                                   ++ skipped_rungs (skip_of cfg b) (rs_rungs sys);
+                     rs_thr := rs_thr sys |};
+                s_task := s_task st; s_active := s_active st |} in
+  on_trial_result cfg st t r m =
+    if continues then (st1, Dec CONTINUE) else (cleanup st1 t STOP, Dec STOP).
+Proof.
+  intros Hwf Hrush st Hr Hrange Hb Hs Hms Hl Hnin continues st1.
+  assert (HI : Inv cfg st) by (apply reached_inv; exact Hwf).
+  assert (Ht : target t r rg = true).
+  { unfold target. apply andb_true_iff. split; [lia|]. apply negb_true_iff.
+    destruct (rung_contains t rg) eqn:E; [|reflexivity]. apply rung_contains_In in E. contradiction. }
+  unfold on_trial_result.
+  rewrite (decision_at_rung _ cfg st t r m b sys pre rg post HI Hr Hrange Hb Hs Hms Ht).
+  unfold cfg_tcf. rewrite Hrush.
+  rewrite (stopping_rule (c_mode cfg) rg t m (rs_thr sys) (own_rung_ok cfg st b sys pre rg post HI Hs Hms)).
+  simpl. fold continues. fold st1. destruct continues; reflexivity.
+Qed.
+
+Theorem c03_rush_rule_at_rung cfg levels brackets evs t r m b sys pre rg post n :
+  wf_levels levels (c_max_t cfg) -> c_rush cfg = Some n ->
+  let st := reached cfg levels brackets evs in
+  running st t -> (1 <= r < c_max_t cfg)%Z -> assoc_get (s_task st) t = Some b ->
+  nth_error (s_sys st) (sys_id cfg b) = Some sys ->
+  milestone_rungs (skip_of cfg b) (rs_rungs sys) = pre ++ rg :: post ->
+  r_level rg = r -> ~ In t (trial_ids rg) ->
+  let base := rule_b (c_mode cfg) (r_quant rg) (m :: metrics (r_data rg)) m in
+  let th := th_get (rs_thr sys) r in
+  let continues := base && ((t <? n)%Z || meets_threshold (c_mode cfg) th m) in
+  snd (on_trial_result cfg st t r m) = Dec (if continues then CONTINUE else STOP) /\
+  exists sys', nth_error (s_sys (fst (on_trial_result cfg st t r m))) (sys_id cfg b) = Some sys' /\
+    rs_thr sys' = (if base && (t <? n)%Z then th_set (rs_thr sys) r (return_better (c_mode cfg) th m)
+                   else rs_thr sys).
+Proof.
+  intros Hwf Hrush st Hr Hrange Hb Hs Hms Hl Hnin base th continues.
+  assert (HI : Inv cfg st) by (apply reached_inv; exact Hwf).
+  assert (Ht : target t r rg = true).
+  { unfold target. apply andb_true_iff. split; [lia|]. apply negb_true_iff.
+    destruct (rung_contains t rg) eqn:E; [|reflexivity]. apply rung_contains_In in E. contradiction. }
+  unfold on_trial_result.
+  rewrite (decision_at_rung _ cfg st t r m b sys pre rg post HI Hr Hrange Hb Hs Hms Ht).
+  unfold cfg_tcf. rewrite Hrush.
+  rewrite (rush_rule (c_mode cfg) n rg t m (rs_thr sys) (own_rung_ok cfg st b sys pre rg post HI Hs Hms)).
+  rewrite Hl. fold base. fold th. simpl snd. simpl fst. fold continues.
+  assert (Hlen : (sys_id cfg b < length (s_sys st))%nat) by (apply nth_error_Some; congruence).
+  destruct continues; simpl; (split; [reflexivity|]); eexists; (split; [apply list_set_nth_same; exact Hlen|reflexivity]).
+Qed.
+
+Theorem c03_enters_once cfg levels brackets evs :
+  wf_levels levels (c_max_t cfg) ->
+  forall sys rg, In sys (s_sys (reached cfg levels brackets evs)) -> In rg (rs_rungs sys) ->
+    NoDup (trial_ids rg) /\ best_first (c_mode cfg) (r_data rg).
+Proof.
+  intros Hwf sys rg Hsys Hrg. destruct (reached_inv cfg levels brackets evs Hwf) as [H1 _].
+  rewrite Forall_forall in H1. destruct (H1 sys Hsys) as [_ Hok]. rewrite Forall_forall in Hok.
+  destruct (Hok rg Hrg) as [_ [Hbf Hnd]]. split; assumption.
+Qed.
+
+(* --- order independence ---------------------------------------------------- *)
+
+Lemma np_quantile_pointwise a a' q : Forall2 Qeq a a' -> np_quantile a q == np_quantile a' q.
+Proof.
+  intro H. unfold np_quantile. rewrite (pointwise_length _ _ H).
+  set (i := Qfloor _). rewrite (pointwise_nth _ _ H (Z.to_nat i)), (pointwise_nth _ _ H (Z.to_nat (i + 1))).
+  reflexivity.
+Qed.
+
+Lemma rule_b_perm md pq ms ms' own : Permutation ms ms' -> rule_b md pq ms own = rule_b md pq ms' own.
+Proof.
+  intro Hp. unfold rule_b. rewrite (Permutation_length Hp). f_equal. apply no_worse_compat.
+  apply np_quantile_pointwise. apply sorted_perm_pointwise; try apply sort_asc_sorted.
+  eapply Permutation_trans; [apply sort_asc_perm|].
+  eapply Permutation_trans; [exact Hp|apply Permutation_sym, sort_asc_perm].
+Qed.
+
+Theorem c03_order_independence cfg levels brackets evs1 evs2 t r m b1 b2 sys1 sys2 pre1 rg1 post1 pre2 rg2 post2 :
+  wf_levels levels (c_max_t cfg) -> c_rush cfg = None ->
+  let st1 := reached cfg levels brackets evs1 in
+  let st2 := reached cfg levels brackets evs2 in
+  running st1 t -> running st2 t -> (1 <= r < c_max_t cfg)%Z ->
+  assoc_get (s_task st1) t = Some b1 -> assoc_get (s_task st2) t = Some b2 ->
+  nth_error (s_sys st1) (sys_id cfg b1) = Some sys1 -> nth_error (s_sys st2) (sys_id cfg b2) = Some sys2 ->
+  milestone_rungs (skip_of cfg b1) (rs_rungs sys1) = pre1 ++ rg1 :: post1 ->
+  milestone_rungs (skip_of cfg b2) (rs_rungs sys2) = pre2 ++ rg2 :: post2 ->
+  r_level rg1 = r -> r_level rg2 = r -> ~ In t (trial_ids rg1) -> ~ In t (trial_ids rg2) ->
+  r_quant rg1 = r_quant rg2 ->
+  Permutation (metrics (r_data rg1)) (metrics (r_data rg2)) ->
+  snd (on_trial_result cfg st1 t r m) = snd (on_trial_result cfg st2 t r m).
+Proof.
+  intros Hwf Hrush st1 st2 Hr1 Hr2 Hrange Hb1 Hb2 Hs1 Hs2 Hm1 Hm2 Hl1 Hl2 Hn1 Hn2 Hq Hp.
+  unfold st1, st2.
+  rewrite (c03_rule_at_rung cfg levels brackets evs1 t r m b1 sys1 pre1 rg1 post1 Hwf Hrush Hr1 Hrange Hb1 Hs1 Hm1 Hl1 Hn1).
+  rewrite (c03_rule_at_rung cfg levels brackets evs2 t r m b2 sys2 pre2 rg2 post2 Hwf Hrush Hr2 Hrange Hb2 Hs2 Hm2 Hl2 Hn2).
+  rewrite Hq. rewrite (rule_b_perm (c_mode cfg) (r_quant rg2) _ (m :: metrics (r_data rg2)) m (perm_skip m Hp)).
+  destruct (rule_b _ _ _ _); reflexivity.
+Qed.
+
+Lemma rule_b_spec md pq ms own :
+  rule_b md pq ms own = true <->
+  (length ms < 2)%nat \/
+  let c := np_quantile (sort_asc ms) (quantile_level md pq) in
+  match md with Min => own <= c | Max => c <= own end.
+Proof.
+  unfold rule_b. rewrite orb_true_iff. simpl. split.
+  - intros [H|H]; [left; lia|right]. destruct md; simpl in H; apply Qleb_le in H; exact H.
+  - intros [H|H]; [left; lia|right]. destruct md; simpl; apply Qleb_le; exact H.
+Qed.
+
+Lemma sort_asc_is_sort l : Sorted Qle (sort_asc l) /\ Permutation (sort_asc l) l.
+Proof. split; [apply StronglySorted_Sorted, sort_asc_sorted|apply sort_asc_perm]. Qed.
+
+(* ======================================================================== *)
+(* 8. C15: mode symmetry of the stopping rung system                         *)
+(*    (mode max on negated metrics = mode min on the originals)              *)
+(* ======================================================================== *)
+
+Definition neg_entry (e : entry) : entry := {| e_trial := e_trial e; e_metric := - e_metric e |}.
+Definition neg_data (l : list entry) : list entry := map neg_entry l.
+Definition neg_rung (rg : rung) : rung :=
+  {| r_level := r_level rg; r_quant := r_quant rg; r_data := neg_data (r_data rg) |}.
+Definition neg_thr (ths : thresholds) : thresholds := map (fun kv => (fst kv, - snd kv)) ths.
+Definition neg_sys (sys : rsys) : rsys :=
+  {| rs_rungs := map neg_rung (rs_rungs sys); rs_thr := neg_thr (rs_thr sys) |}.
+Definition neg_state (st : state) : state :=
+  {| s_sys := map neg_sys (s_sys st); s_task := s_task st; s_active := s_active st |}.
+Definition neg_event (ev : event) : event :=
+  match ev with EvReport t r m => EvReport t r (- m) | e => e end.
+Definition with_mode (md : mode) (cfg : config) : config :=
+  {| c_mode := md; c_max_t := c_max_t cfg; c_per_bracket := c_per_bracket cfg; c_rush := c_rush cfg |}.
+
+Lemma Qopp_opp_eq (x : Q) : - - x = x.
+Proof. destruct x as [a b]. unfold Qopp. simpl. rewrite Z.opp_involutive. reflexivity. Qed.
+
+Lemma Qleb_iff_eq a b c d : (a <= b <-> c <= d) -> Qleb a b = Qleb c d.
+Proof.
+  intro H. destruct (Qleb a b) eqn:E1, (Qleb c d) eqn:E2; try reflexivity.
+  - apply Qleb_le in E1. apply H in E1. apply Qleb_le in E1. congruence.
+  - apply Qleb_le in E2. apply H in E2. apply Qleb_le in E2. congruence.
+Qed.
+
+Lemma sl_add_neg e l : sl_add Max (neg_entry e) (neg_data l) = neg_data (sl_add Min e l).
+Proof.
+  induction l as [|x l IH]; simpl; [reflexivity|].
+  rewrite !Qopp_opp_eq. destruct (Qleb (e_metric x) (e_metric e)); simpl; [rewrite IH|]; reflexivity.
+Qed.
+
+Lemma rung_add_neg rg t m : rung_add Max (neg_rung rg) t (- m) = neg_rung (rung_add Min rg t m).
+Proof.
+  unfold rung_add, neg_rung. simpl. f_equal.
+  apply (sl_add_neg {| e_trial := t; e_metric := m |} (r_data rg)).
+Qed.
+
+Lemma rung_contains_neg t rg : rung_contains t (neg_rung rg) = rung_contains t rg.
+Proof.
+  unfold rung_contains, neg_rung, neg_data. simpl. induction (r_data rg) as [|e l IH]; simpl; [reflexivity|].
+  rewrite IH. reflexivity.
+Qed.
+
+Lemma metric_at_neg data k : metric_at (neg_data data) k = - metric_at data k.
+Proof.
+  unfold metric_at, neg_data.
+  change {| e_trial := 0%Z; e_metric := 0 |} with (neg_entry {| e_trial := 0%Z; e_metric := 0 |}) at 1.
+  rewrite map_nth. reflexivity.
+Qed.
+
+(* the non-trivial heart: q vs 1-q, reversed order, g vs 1-g *)
+Lemma quantile_mode_symmetry pq data : 0 < pq < 1 ->
+  match rung_quantile Min pq data, rung_quantile Max pq (neg_data data) with
+  | QNone, QNone => True
+  | QVal v, QVal w => w == - v
+  | _, _ => False
+  end.
+Proof.
+  intro Hpq. unfold rung_quantile. cbv zeta.
+  replace (length (neg_data data)) with (length data) by (unfold neg_data; rewrite map_length; reflexivity).
+  set (n := Z.of_nat (length data)).
+  destruct (n <? 2)%Z eqn:En; [exact I|].
+  assert (Hn : (2 <= n)%Z) by lia. clear En.
+  set (N1 := inject_Z (n - 1)).
+  assert (HN1 : 1 <= N1).
+  { unfold N1. change 1 with (inject_Z 1). rewrite <- Zle_Qle. lia. }
+  set (h := N1 * pq).
+  assert (Hh : 0 < h < N1) by (unfold h; nra).
+  set (i := Qfloor h).
+  pose proof (Qfloor_le h) as Fi1. pose proof (Qlt_floor h) as Fi2. fold i in Fi1, Fi2.
+  assert (Hi0 : (0 <= i)%Z).
+  { assert (A : (0 < i + 1)%Z) by (rewrite Zlt_Qlt; change (inject_Z 0) with 0; lra). lia. }
+  assert (Hi1 : (i < n - 1)%Z) by (rewrite Zlt_Qlt; fold N1; lra).
+  assert (Hinj1 : inject_Z (i + 1) == inject_Z i + 1) by (rewrite inject_Z_plus; reflexivity).
+  assert (Hinj2 : inject_Z (i + 1 + 1) == inject_Z i + 2).
+  { rewrite !inject_Z_plus. change (inject_Z 1) with 1. ring. }
+  assert (HinjN : N1 == inject_Z n - 1).
+  { unfold N1. unfold Z.sub. rewrite inject_Z_plus. reflexivity. }
+  assert (Htr : Qtrunc (h + 1) = (i + 1)%Z).
+  { unfold Qtrunc. destruct (Qle_bool 0 (h + 1)) eqn:E0.
+    - apply floor_unique; lra.
+    - exfalso. assert (0 <= h + 1) by lra. apply Qle_bool_iff in H. congruence. }
+  rewrite Htr.
+  destruct (negb ((1 <=? i + 1)%Z && (i + 1 <? n)%Z)) eqn:Ea; [lia|]. clear Ea.
+  assert (Hv' : N1 * (1 - pq) + 1 == N1 - h + 1) by (unfold h; ring).
+  destruct (Qlt_le_dec (inject_Z i) h) as [Hlt|Hge].
+  - (* h is not an integer *)
+    assert (Htr' : Qtrunc (N1 * (1 - pq) + 1) = (n - i - 1)%Z).
+    { unfold Qtrunc. destruct (Qle_bool 0 (N1 * (1 - pq) + 1)) eqn:E0.
+      - apply floor_unique.
+        + rewrite Hv'. unfold Z.sub. rewrite !inject_Z_plus, !inject_Z_opp. change (inject_Z 1) with 1. lra.
+        + rewrite Hv'. unfold Z.sub. rewrite !inject_Z_plus, !inject_Z_opp. change (inject_Z 1) with 1. lra.
+      - exfalso. assert (0 <= N1 * (1 - pq) + 1) by (rewrite Hv'; lra). apply Qle_bool_iff in H. congruence. }
+    rewrite Htr'.
+    destruct (negb ((1 <=? n - i - 1)%Z && (n - i - 1 <? n)%Z)) eqn:Ea; [lia|]. clear Ea.
+    rewrite !metric_at_neg.
+    replace (n - (n - i - 1) - 1 + 1)%Z with (i + 1 - 1 + 1)%Z by lia.
+    replace (n - (n - i - 1) - 1)%Z with (i + 1 - 1)%Z by lia.
+    assert (Hinj3 : inject_Z (n - i - 1) == inject_Z n - inject_Z i - 1).
+    { unfold Z.sub. rewrite !inject_Z_plus, !inject_Z_opp. reflexivity. }
+    rewrite Hinj3, Hinj1, Hv', HinjN. ring.
+  - (* h is an integer: h == i, i >= 1 *)
+    assert (Hhi : h == inject_Z i) by lra.
+    assert (Hi1' : (1 <= i)%Z).
+    { assert (A : (0 < i)%Z) by (rewrite Zlt_Qlt; change (inject_Z 0) with 0; lra). lia. }
+    assert (Hinj4 : inject_Z (n - i) == inject_Z n - inject_Z i).
+    { unfold Z.sub. rewrite !inject_Z_plus, !inject_Z_opp. reflexivity. }
+    assert (Htr' : Qtrunc (N1 * (1 - pq) + 1) = (n - i)%Z).
+    { unfold Qtrunc. destruct (Qle_bool 0 (N1 * (1 - pq) + 1)) eqn:E0.
+      - apply floor_unique.
+        + rewrite Hv', Hinj4. lra.
+        + rewrite Hv'. unfold Z.sub. rewrite !inject_Z_plus, !inject_Z_opp. change (inject_Z 1) with 1. lra.
+      - exfalso. assert (0 <= N1 * (1 - pq) + 1) by (rewrite Hv'; lra). apply Qle_bool_iff in H. congruence. }
+    rewrite Htr'.
+    destruct (negb ((1 <=? n - i)%Z && (n - i <? n)%Z)) eqn:Ea; [lia|]. clear Ea.
+    rewrite !metric_at_neg.
+    replace (n - (n - i) - 1 + 1)%Z with (i + 1 - 1)%Z by lia.
+    rewrite Hinj4, Hinj1, Hv', HinjN, Hhi. ring.
+Qed.
+
+Lemma base_continues_neg rg m : 0 < r_quant rg < 1 ->
+  base_continues Max (neg_rung rg) (- m) = base_continues Min rg m.
+Proof.
+  intro Hq. unfold base_continues. simpl r_quant. simpl r_data.
+  pose proof (quantile_mode_symmetry (r_quant rg) (r_data rg) Hq) as H.
+  destruct (rung_quantile Min (r_quant rg) (r_data rg)) as [|v|],
+           (rung_quantile Max (r_quant rg) (neg_data (r_data rg))) as [|w|]; try contradiction; try reflexivity.
+  f_equal. simpl. apply Qleb_iff_eq. rewrite H. split; intro; lra.
+Qed.
+
+Lemma th_get_neg ths r : th_get (neg_thr ths) r = option_map Qopp (th_get ths r).
+Proof.
+  induction ths as [|[k v] ths IH]; simpl; [reflexivity|]. destruct (Z.eqb k r); [reflexivity|exact IH].
+Qed.
+
+Lemma th_set_neg ths r v : th_set (neg_thr ths) r (- v) = neg_thr (th_set ths r v).
+Proof.
+  induction ths as [|[k w] ths IH]; simpl; [reflexivity|].
+  destruct (Z.eqb k r); simpl; [reflexivity|rewrite IH; reflexivity].
+Qed.
+
+Lemma Qltb_neg a b : Qltb (- a) (- b) = Qltb b a.
+Proof. unfold Qltb. f_equal. apply (Qleb_iff_eq (- b) (- a) a b). split; intro; lra. Qed.
+
+Lemma return_better_neg th m : return_better Max (option_map Qopp th) (- m) = - return_better Min th m.
+Proof.
+  destruct th as [a|]; simpl; [|reflexivity]. rewrite Qltb_neg. destruct (Qltb m a); reflexivity.
+Qed.
+
+Lemma Qeqb_neg a b : Qeqb (- a) (- b) = Qeqb a b.
+Proof.
+  unfold Qeqb. destruct (Qeq_bool a b) eqn:E1, (Qeq_bool (- a) (- b)) eqn:E2; try reflexivity.
+  - apply Qeq_bool_iff in E1. assert (H : - a == - b) by lra. apply Qeq_bool_iff in H. congruence.
+  - apply Qeq_bool_iff in E2. assert (H : a == b) by lra. apply Qeq_bool_iff in H. congruence.
+Qed.
+
+Lemma cfg_tcf_neg cfg rg t m ths : c_mode cfg = Min -> 0 < r_quant rg < 1 ->
+  cfg_tcf (with_mode Max cfg) (neg_rung rg) t (- m) (neg_thr ths) =
+    (neg_thr (fst (cfg_tcf cfg rg t m ths)), snd (cfg_tcf cfg rg t m ths)).
+Proof.
+  intros Hmd Hq. unfold cfg_tcf, with_mode. simpl. rewrite Hmd.
+  destruct (c_rush cfg) as [n|]; simpl.
+  - unfold tc_rush. rewrite (base_continues_neg rg m Hq).
+    destruct (base_continues Min rg m) as [tc|]; [|reflexivity].
+    unfold rush_decide. simpl r_level. destruct (negb tc); [reflexivity|].
+    rewrite th_get_neg, return_better_neg. destruct (t <? n)%Z; simpl.
+    + rewrite th_set_neg. reflexivity.
+    + rewrite Qeqb_neg. reflexivity.
+  - unfold tc_stopping. simpl. rewrite (base_continues_neg rg m Hq). reflexivity.
+Qed.
+
+Definition neg_report (res : report) : report :=
+  {| rp_rungs := map neg_rung (rp_rungs res); rp_thr := neg_thr (rp_thr res);
+     rp_continues := rp_continues res; rp_milestone := rp_milestone res |}.
+
+Lemma scan_neg cfg ths t r m rs : c_mode cfg = Min -> Forall (fun rg => 0 < r_quant rg < 1) rs ->
+  scan Max (cfg_tcf (with_mode Max cfg)) (neg_thr ths) t r (- m) (map neg_rung rs) =
+    neg_report (scan Min (cfg_tcf cfg) ths t r m rs).
+Proof.
+  intros Hmd Hf. induction Hf as [|rg rest Hq Hf IH]; simpl; [reflexivity|].
+  rewrite rung_contains_neg.
+  destruct ((r <? r_level rg)%Z || rung_contains t rg).
+  - rewrite IH. reflexivity.
+  - destruct (r_level rg <? r)%Z; [reflexivity|].
+    rewrite rung_add_neg.
+    rewrite (cfg_tcf_neg cfg (rung_add Min rg t m) t m ths Hmd Hq).
+    destruct (cfg_tcf cfg (rung_add Min rg t m) t m ths). reflexivity.
+Qed.
+
+Lemma milestone_rungs_neg skip rs : milestone_rungs skip (map neg_rung rs) = map neg_rung (milestone_rungs skip rs).
+Proof. unfold milestone_rungs. rewrite map_length. apply firstn_map. Qed.
+
+Lemma skipped_rungs_neg skip rs : skipped_rungs skip (map neg_rung rs) = map neg_rung (skipped_rungs skip rs).
+Proof. unfold skipped_rungs. rewrite map_length. apply skipn_map. Qed.
+
+Definition quants_ok (sys : rsys) : Prop := Forall (fun rg => 0 < r_quant rg < 1) (rs_rungs sys).
+
+Lemma rs_report_neg cfg sys skip t r m : c_mode cfg = Min -> quants_ok sys ->
+  rs_on_task_report Max (cfg_tcf (with_mode Max cfg)) (c_max_t cfg) (neg_sys sys) skip t r (- m) =
+    let res := rs_on_task_report Min (cfg_tcf cfg) (c_max_t cfg) sys skip t r m in
+    (neg_sys (fst (fst res)), snd (fst res), snd res).
+Proof.
+  intros Hmd Hq. unfold rs_on_task_report. destruct (r =? c_max_t cfg)%Z; [reflexivity|].
+  simpl rs_rungs. simpl rs_thr. rewrite milestone_rungs_neg, skipped_rungs_neg.
+  rewrite scan_neg; [|exact Hmd|].
+  - simpl. unfold neg_sys. simpl. rewrite map_app. reflexivity.
+  - unfold quants_ok in Hq. rewrite Forall_forall in *. intros rg Hin. apply Hq. eapply firstn_incl. exact Hin.
+Qed.
+
+Lemma list_set_map {A B} (f : A -> B) l i x : list_set (map f l) i (f x) = map f (list_set l i x).
+Proof. revert i. induction l as [|y l IH]; intros [|i]; simpl; try reflexivity. rewrite IH. reflexivity. Qed.
+
+Lemma cleanup_neg st t d : cleanup (neg_state st) t d = neg_state (cleanup st t d).
+Proof. reflexivity. Qed.
+
+Lemma sys_ok_quants md sys : sys_ok md sys -> quants_ok sys.
+Proof.
+  intros [_ H]. unfold quants_ok. rewrite Forall_forall in *. intros rg Hin. destruct (H rg Hin) as [Hq _]. exact Hq.
+Qed.
+
+Lemma on_trial_result_neg cfg st t r m : c_mode cfg = Min -> Inv cfg st ->
+  on_trial_result (with_mode Max cfg) (neg_state st) t r (- m) =
+    (neg_state (fst (on_trial_result cfg st t r m)), snd (on_trial_result cfg st t r m)).
+Proof.
+  intros Hmd [HI _]. unfold on_trial_result, on_trial_result_gen. simpl s_active. simpl s_task. simpl s_sys.
+  destruct (r <? 1)%Z; [reflexivity|].
+  destruct (assoc_get (s_active st) t) as [[| |]|]; try reflexivity.
+  destruct (assoc_get (s_task st) t) as [b|]; [|reflexivity].
+  change (sys_id (with_mode Max cfg) b) with (sys_id cfg b).
+  change (skip_of (with_mode Max cfg) b) with (skip_of cfg b).
+  change (c_max_t (with_mode Max cfg)) with (c_max_t cfg).
+  change (c_mode (with_mode Max cfg)) with Max. rewrite Hmd.
+  rewrite nth_error_map.
+  destruct (nth_error (s_sys st) (sys_id cfg b)) as [sys|] eqn:Es; simpl option_map; cbv iota; [|reflexivity].
+  destruct (r <? c_max_t cfg)%Z; [|reflexivity].
+  assert (Hq : quants_ok sys).
+  { rewrite Forall_forall in HI. rewrite Hmd in HI. eapply sys_ok_quants. apply HI. eapply nth_error_In. exact Es. }
+  rewrite (rs_report_neg cfg sys (skip_of cfg b) t r m Hmd Hq). cbv zeta.
+  set (res := rs_on_task_report Min (cfg_tcf cfg) (c_max_t cfg) sys (skip_of cfg b) t r m).
+  simpl fst. simpl snd. rewrite list_set_map.
+  destruct (snd (fst res)) as [[|]|]; reflexivity.
+Qed.
+
+Lemma step_neg cfg st ev : c_mode cfg = Min -> Inv cfg st ->
+  step (with_mode Max cfg) (neg_state st) (neg_event ev) =
+    (neg_state (fst (step cfg st ev)), snd (step cfg st ev)).
+Proof.
+  intros Hmd HI. destruct ev as [t b|t r m|t|t|t]; simpl.
+  - unfold step, step_gen. simpl s_sys. simpl s_active. change (sys_id (with_mode Max cfg) b) with (sys_id cfg b).
+    rewrite nth_error_map. destruct (nth_error (s_sys st) (sys_id cfg b)); simpl; [|reflexivity].
+    destruct (assoc_get (s_active st) t); reflexivity.
+  - apply on_trial_result_neg; assumption.
+  - reflexivity.
+  - unfold step, step_gen. simpl s_active. destruct (assoc_get (s_active st) t); reflexivity.
+  - reflexivity.
+Qed.
+
+(* whole runs: same decisions / errors for every event, same rung contents (negated) *)
+Fixpoint outcomes (cfg : config) (st : state) (evs : list event) : list outcome :=
+  match evs with
+  | [] => []
+  | ev :: rest => snd (step cfg st ev) :: outcomes cfg (fst (step cfg st ev)) rest
+  end.
+
+Theorem stopping_mode_symmetry cfg evs : forall st, c_mode cfg = Min -> Inv cfg st ->
+  run (with_mode Max cfg) (neg_state st) (map neg_event evs) = neg_state (run cfg st evs) /\
+  outcomes (with_mode Max cfg) (neg_state st) (map neg_event evs) = outcomes cfg st evs.
+Proof.
+  unfold run. induction evs as [|ev evs IH]; intros st Hmd HI; simpl; [split; reflexivity|].
+  rewrite (step_neg cfg st ev Hmd HI). simpl fst. simpl snd.
+  destruct (IH (fst (step cfg st ev)) Hmd (step_inv _ cfg st ev HI)) as [H1 H2].
+  split; [exact H1|]. f_equal. exact H2.
+Qed.
+
+Lemma init_state_neg cfg levels brackets :
+  neg_state (init_state cfg levels brackets) = init_state (with_mode Max cfg) levels brackets.
+Proof.
+  unfold init_state, neg_state. simpl. f_equal.
+  generalize (mk_quantiles levels (c_max_t cfg)) as quants.
+  generalize (if c_per_bracket cfg then Nat.min brackets (length levels + 1) else 1%nat) as num.
+  intro num. revert levels. induction num as [|num IH]; intros levels quants; simpl; [reflexivity|].
+  rewrite IH. f_equal. unfold neg_sys, mk_rungs. simpl. f_equal.
+  rewrite map_rev. rewrite map_map. reflexivity.
+Qed.
+
+Theorem stopping_mode_symmetry_from_init cfg levels brackets evs :
+  c_mode cfg = Min -> wf_levels levels (c_max_t cfg) ->
+  reached (with_mode Max cfg) levels brackets (map neg_event evs) = neg_state (reached cfg levels brackets evs) /\
+  outcomes (with_mode Max cfg) (init_state (with_mode Max cfg) levels brackets) (map neg_event evs) =
+    outcomes cfg (init_state cfg levels brackets) evs.
+Proof.
+  intros Hmd Hwf. unfold reached. rewrite <- init_state_neg.
+  apply stopping_mode_symmetry; [exact Hmd|apply init_inv; exact Hwf].
+Qed.
